@@ -10,10 +10,11 @@ Quick == Tier = "quick"
 Cfgs == { <<DummyKey, "none">>, <<OctKey(32, "a", NONE, NONE), "HS256">>, <<AsymKey("rsa2048a", 0, NONE, NONE), "RS256">>,
           <<AsymKey("p256a", 0, NONE, NONE), "ES256">>, <<AsymKey("ed25519a", 0, NONE, NONE), "EdDSA">>,
           <<AsymKey("k256a", 0, NONE, NONE), "ES256">>, <<AsymKey("k256a", 0, NONE, NONE), "ES256K">>, <<AsymKey("rsa2048a", 0, "PS256", NONE), "PS256">> }
-Shapes == {"3seg", "null", "empty", "0dot", "1dot", "2seg", "lead", "4seg", "4segempty"}
+Shapes == {"3seg", "null", "empty", "0dot", "1dot", "2seg", "lead", "4seg", "4segempty", "4segmid", "4segmidempty", "5segmid", "dupsig"}
 HClasses == {"obj", "objws", "notjson", "arr", "scalar", "strjson", "nulljson", "notb64", "len1mod4", "empty", "emptyobj", "dupkeys"}
 PClasses == {"obj", "objws", "notjson", "arr", "scalar", "strjson", "nulljson", "notb64", "len1mod4", "empty", "emptyobj"}
-Spellings(a) == {a, "none", "None", "hs256", "HS256 ", "bogus", "", NONE, "#int", "#null", "#bool", "#arr", "#obj", "#real", "%s%s%s%s%s%s%n"} \cup NearMiss(a)
+Spellings(a) == {a, "none", "None", "hs256", "HS256 ", "bogus", "", NONE, "#int", "#null", "#bool", "#arr", "#obj", "#real", "%s%s%s%s%s%s%n",
+                 "#long:240:x", "#long:248:x", "#long:300:x", "#long:1500:x", "#long:70000:x"} \cup NearMiss(a)     \* names longer than any message buffer
 SigsFor(k, a) == { EmptySig, Sig("valid", a, k), [Sig("garbage", "HS256", DummyKey) EXCEPT !.cls = "garbage"], Sig("notb64", a, k) }
 
 Base(k, a) == Tok(a, <<>>, <<StrM("sub", "x")>>, IF a = "none" THEN EmptySig ELSE Sig("valid", a, k))
